@@ -405,7 +405,7 @@ class Conv1d(nn.Module):
         if padding == 'same':
             if stride != 1:
                 raise ValueError("padding='same' is not supported for strided convolutions")
-            padding = int(np.floor(kernel_size / 2))
+            padding = int(np.floor(dilation * (kernel_size - 1) / 2))
         if padding == 'valid':
             padding = 0
         
@@ -474,7 +474,7 @@ class Conv2d(nn.Module):
         if padding == 'same':
             if any(s != 1 for s in stride):
                 raise ValueError("padding='same' is not supported for strided convolutions")
-            padding = int(np.floor(kernel_size[0] / 2))
+            padding = tuple(int(np.floor(d * (k - 1) / 2)) for k, d in zip(kernel_size, np.broadcast_to(dilation, 2)))
         if padding == 'valid':
             padding = 0
         padding = np.broadcast_to(padding, 2)
